@@ -33,7 +33,7 @@ func ParseInput(r *rng.Rand, n *spec.Node, o InOpts) any {
 			return nil
 		}
 		if c < o.AbsentPct/3+o.WrongPct/2 {
-			return []any{"not a record", 42, []any{1, 2}, true, 3.5}[r.Intn(5)]
+			return []any{"not a record", 42, []any{1, 2}, true, 3.5, "", "  "}[r.Intn(7)] // a blank string is not a record either
 		}
 		m := map[string]any{}
 		for i := range n.Fields {
